@@ -5,10 +5,12 @@ import (
 	"bytes"
 	"encoding/json"
 	"fmt"
+	"math"
 	"os"
 	"os/exec"
 	"path/filepath"
 	"sort"
+	"strconv"
 	"strings"
 	"sync"
 	"sync/atomic"
@@ -47,42 +49,71 @@ import (
 // subscribed to the DeviceDiagnosis feature before the observed peer: its send fault must not cost the observed
 // peer any refresh (oracle 3). The seq part also removes entities that are not in the device's entity list while
 // their heartbeat runs (histories "restart-after-remove" and "never-added"), judged by oracle (5).
+//
+// Second entity: in two of three cases of seq and conc a second entity ([2], or nested [1,1]) has its own DeviceDiagnosis
+// feature, heartbeat manager, timeout and subscription; nothing but its AddFunctionType is ever called for it. After
+// every checkpoint of entity [1] it must still report running and two more of its refreshes must arrive (oracle 7:
+// <op>/stops-the-heartbeat-of-another-entity, .../ends-the-stream-of-another-entity); its own notifies carry strictly
+// increasing counters and its stream's period respects ITS timeout. The tap partitions the notifies by addressSource;
+// source and destination address of every notify are judged, and a stream goroutine (attributed to its manager by the
+// hook) must write its own entity's address (oracle 8). Refresh/data coherence: inside the writer DataCopy of the source
+// feature must already show the notified counter (oracle 9, causal); at stopped checkpoints the whole heartbeat data
+// (not only the counter) must stay unchanged. A second healthy peer subscribes while the heartbeat runs and must get
+// every refresh that was provably built after its subscription returned (oracle 10). "Refreshed periodically": a
+// running checkpoint whose watchdog expires without a single refresh is a violation if IsHeartbeatRunning is true, the
+// last returned call started the heartbeat and the harness's own timer was on time (<op>/running-without-a-stream when
+// the hook gauge shows no live stream goroutine, else <op>/no-refresh-while-running). The announced timeout is parsed
+// from the PT..S string of the datagram by the check itself. Part entity0: AddFunctionType(heartbeat) and the
+// heartbeat calls on entity [0], which has no heartbeat manager, each history in a child process; only "no panic".
 
 // 150ms and 1.25s are not multiples of the 0.1s resolution of the announced xs:duration: the announced timeout
 // (PT0.1S, PT1.2S) is then shorter than the configured Go value, and the period is judged against the announced one
-var c16Timeouts = []time.Duration{100 * time.Millisecond, 150 * time.Millisecond, 300 * time.Millisecond, time.Second, 1250 * time.Millisecond, 2500 * time.Millisecond, 4 * time.Second}
+// exactly 2s is the last timeout whose period is not shortened (period 2s), 2.1s the first one that is (period 0.1s)
+var c16Timeouts = []time.Duration{100 * time.Millisecond, 150 * time.Millisecond, 300 * time.Millisecond, time.Second, 1250 * time.Millisecond, 2 * time.Second, 2100 * time.Millisecond, 2500 * time.Millisecond, 4 * time.Second}
+
+// timeouts of the second entity (periods 100, 200 and - shortened - 100 ms)
+var c16TwinTimeouts = []time.Duration{100 * time.Millisecond, 2100 * time.Millisecond, 200 * time.Millisecond}
 
 func init() {
 	rig.Register(&rig.Check{
 		ID:    "C16",
 		Floor: 12,
-		Rule: "seq: case = timeout (all five in turn) x a history, each burst of calls followed by a checkpoint (running: wait for k refreshes; stopped: three periods of silence). Rows of five cases: four rows of generated histories of bursts of " +
+		Rule: "seq: case = timeout (all nine in turn: 0.1, 0.15, 0.3, 1, 1.25, 2, 2.1, 2.5, 4 s) x a history, each burst of calls followed by a checkpoint (running: wait for k refreshes; stopped: three periods of silence). Rows of five cases: four rows of generated histories of bursts of " +
 			"AddFunctionType(heartbeat)/StartHeartbeat/StopHeartbeat/IsHeartbeatRunning/RemoveEntity calls (RemoveEntity possibly a second time after a restart), one row 'restart-after-remove' (AddEntity, add, RemoveEntity, StartHeartbeat, RemoveEntity again), " +
 			"one row 'never-added' (NewEntityLocal, add - which starts the heartbeat -, RemoveEntity without any AddEntity; observed through DataCopy). In every second case of seq, conc and slowtap a peer without write handler (every send to it fails) " +
 			"subscribed to the DeviceDiagnosis feature before the observed peer; " +
-			"conc: 4-8 goroutines with 3-6 Start/Stop/IsRunning calls each, cyclic rendezvous of two or jitter at Heartbeat.stop.afterCheck and Heartbeat.start.afterStop, then a final sequential call that makes the expectation exact, " +
-			"then (periods <= 300 ms) 2-8 trials of Stop, Start and restarting Start, and finally (all periods) RemoveEntity, each called while 4-8 other goroutines query IsHeartbeatRunning in a tight loop (bounded; they have ended before the checkpoint judges: after Stop/RemoveEntity no live stream and no refresh beyond the one in flight, after Start exactly one stream); " +
-			"slowtap: Stop issued while a refresh is being written by a writer that is slower than the period; in four further cases (periods 300 and 500 ms) the observed subscriber's connection holds one notification for period + 2.1..2.5 s without any call being made, and the refreshes that follow must carry current timestamps; nofeature: histories that start the heartbeat although no DeviceDiagnosis heartbeat function was added, each in a child process. " +
+			"in two of three cases of seq and conc a second entity ([2] or nested [1,1]) runs its own heartbeat (timeout 0.1, 0.2 or 2.1 s), started before or after that of entity [1] and never stopped: after every checkpoint of entity [1] it must still be running and refreshing (for [1,1] only until RemoveEntity([1])); " +
+			"in every second generated history of seq a second healthy peer subscribes while the heartbeat runs and must receive every refresh built after its subscription returned; " +
+			"conc: 4-8 goroutines with 3-6 Start/Stop/IsRunning calls each - in case index%4 = 1|3 the AddFunctionType that creates and starts the heartbeat is one of these calls (the others begin with StartHeartbeat), in 2|3 one or two RemoveEntity calls are among them -, cyclic rendezvous of two or jitter at Heartbeat.stop.afterCheck and Heartbeat.start.afterStop, then a final sequential call that makes the expectation exact, " +
+			"then (periods <= 300 ms) 2-8 trials of Stop, Start and restarting Start, and finally (all periods) RemoveEntity, each called while 4-8 other goroutines query IsHeartbeatRunning in a tight loop (bounded; they have ended before the checkpoint judges: after Stop/RemoveEntity no live stream and no refresh beyond the one in flight, after Start exactly one stream; a query that returned before the call began must report the state the preceding checkpoint established, one that began after the call returned the state the call produces - ordered through an atomic phase flag -, queries overlapping the call are only counted); " +
+			"slowtap: Stop issued while a refresh is being written by a writer that is slower than the period; in four further cases (periods 300 and 500 ms) the observed subscriber's connection holds one notification for period + 2.1..2.5 s without any call being made, and the refreshes that follow must carry current timestamps; nofeature: histories that start the heartbeat although no DeviceDiagnosis heartbeat function was added, each in a child process; entity0: six histories of AddFunctionType(heartbeat) (readable / not readable), the HeartbeatManager calls (if a manager is handed out), AddEntity and RemoveEntity on the DeviceDiagnosis server feature of the device's entity [0] and of an entity [0] created by the application, each in a child process, judged for 'no panic' only (one control history without the heartbeat function). " +
 			"A case is non-trivial if at least one running checkpoint (refreshes judged) and one stopped checkpoint (silence judged) were decided without a watchdog expiry. distinct = (timeout, operation sequence, hook policy).",
 		Assumptions: []string{
-			"'periodically' cannot be decided without a clock: a running heartbeat that shows no refresh within a generous watchdog makes the case inconclusive, never violated; the deciding period check is the hook record period <= announced timeout",
+			"'periodically': the deciding period check is the hook record period <= announced timeout (announced = the PT..S string of the notify / the function data, parsed by the check itself). A running checkpoint that shows NO refresh at all within its watchdog ((k+2) x 4 periods + 15 s) is a violation on logged order if every call has returned, the call that decided the state started the heartbeat, IsHeartbeatRunning() = true, and the harness's own sampler timer woke up regularly during the wait (at least half of the nominal wake-ups, at most 10% more than 50 ms late: the process was not starved): <op>/running-without-a-stream if the hook gauge shows that every stream goroutine that entered has left, else <op>/no-refresh-while-running; fewer refreshes than waited for, or a late harness timer, stay inconclusive",
+			"a second entity for which only AddFunctionType(heartbeat) was ever called is running by the statement's own terms; that calls on entity [1] leave it running and refreshing is 'an entity's heartbeat ... while running ... refreshed periodically' applied to it. For a nested entity [1,1] nothing is judged after RemoveEntity([1]): whether removing an entity ends the heartbeats of its sub-entities is not decided by the statement. Gaps in the second entity's counter sequence are not judged (only 'strictly increasing')",
+			"'notified to the subscribers of the device-diagnosis feature' names the feature: addressSource must be the DeviceDiagnosis feature of the entity whose stream wrote the notify, addressDestination the client feature subscribed to exactly that feature; a peer that subscribes while the heartbeat runs is a subscriber from the moment its subscription request returned: refreshes built after that (same-goroutine successor of a notify whose write to the first subscriber completed later, or a stream goroutine that entered later) must reach it, up to the first RemoveEntity call",
+			"'data is refreshed ... every refresh is notified': FeatureLocal.SetData stores before it notifies, so while a notify is inside the writer DataCopy of its source feature shows a counter >= the notified one (read by the writer goroutine itself: causal); 'the data then stays unchanged' is judged on the JSON rendering of the whole heartbeat data (same counter => same content)",
+			"entity [0]: whether the DeviceInformation entity has a heartbeat is not decided; AddFunctionType(heartbeat) on its DeviceDiagnosis server feature and every call the API offers there must not panic (signature entity0/add-heartbeat-function-panics: on the current tree EntityLocal.HeartbeatManager() is nil for entity [0] and FeatureLocal.AddFunctionType dereferences it)",
 			"a stopped stream may complete the one refresh that was in flight when Stop/RemoveEntity returned; a further refresh on the same stream goroutine provably started after the return and is judged",
 			"after RemoveEntity refreshes are counted through the heartbeat counter in DataCopy (difference to the value sampled right after the call returned) as well as on the tap: the removed entity's own subscriptions to remote features are cancelled, but the registry entries of remote subscribers to its features stay (observed: a heartbeat restarted on a removed entity is still notified), which no clause of this statement judges",
 			"'every refresh is notified to the subscribers' includes a subscriber whose entry follows that of a peer with a broken connection (the mute peer of x_mute.go, which is not observed itself); when the function data shows refreshes whose notifies never reach the observed peer, the running checkpoint stops waiting and oracle (3) (sampled refreshes vs. notifies) gives the verdict",
 			"'removal of the entity' is judged for every RemoveEntity call that returned, also when the entity is not (or no longer) in the device's entity list while its heartbeat runs (AddFunctionType starts it before AddEntity; StartHeartbeat restarts it after a removal)",
 			"the rendezvous at the two Start/Stop windows lies inside a mutex on the current tree: it expires (counted as window_closed) and is never judged",
 			"'a current timestamp' after a blocked notification: a stream builds refresh k+1 after the write of notification k returned (same goroutine), so its timestamp must not be older than the harness clock reading taken when that write was complete, minus 0.5 s (the stack rounds to whole seconds) minus 1 s tolerance (signature timestamp/older-than-the-end-of-the-previous-notification; judged for every pair of consecutive notifications of one stream in every part). The comparison is one-sided and causal (delays only make the timestamp later); it is skipped when the harness's own sampler was more than 500 ms late around that moment",
-			"IsHeartbeatRunning is an operation of the quantifier: other goroutines querying the state while Stop, Start or RemoveEntity run must not change what those calls achieve; what the concurrent queries return is only counted",
+			"IsHeartbeatRunning is an operation of the quantifier: other goroutines querying the state while Stop, Start or RemoveEntity run must not change what those calls achieve; the answers of queries that provably ended before the call began or began after it returned are judged against the decided state, those overlapping the call are only counted",
 			"histories that call StartHeartbeat before an effective AddFunctionType run in a child process, because the stream goroutine of the current tree dereferences a nil feature at its first tick and takes the process down (reported as heartbeat/start-without-feature-panics)",
 		},
 		Parts: []rig.Part{
-			{Name: "seq", Run: c16Seq, Workers: 32, Chunk: 1, Procs: 2, Quiet: 120 * time.Second, Cases: func(t rig.Tier) int { return map[rig.Tier]int{rig.Quick: 42, rig.Thorough: 336}[t] }},
+			{Name: "seq", Run: c16Seq, Workers: 32, Chunk: 1, Procs: 2, Quiet: 120 * time.Second, Cases: func(t rig.Tier) int { return map[rig.Tier]int{rig.Quick: 54, rig.Thorough: 432}[t] }},
 			{Name: "conc", Run: c16Conc, Workers: 20, Chunk: 1, Procs: 4, Quiet: 120 * time.Second, Cases: func(t rig.Tier) int { return map[rig.Tier]int{rig.Quick: 16, rig.Thorough: 140}[t] }},
 			{Name: "conc-race", Race: true, Run: c16Conc, Workers: 16, Chunk: 1, Procs: 4, Quiet: 180 * time.Second, Cases: func(t rig.Tier) int { return map[rig.Tier]int{rig.Quick: 8, rig.Thorough: 48}[t] }},
 			{Name: "slowtap", Run: c16SlowTap, Workers: 12, Chunk: 1, Procs: 2, Quiet: 120 * time.Second, Cases: func(t rig.Tier) int { return map[rig.Tier]int{rig.Quick: 6 + 4, rig.Thorough: 16 + 12}[t] }},
 			{Name: "nofeature", Run: c16NoFeature, Workers: 8, Chunk: 1, Procs: 2, Quiet: 120 * time.Second, Cases: func(t rig.Tier) int { return map[rig.Tier]int{rig.Quick: 6, rig.Thorough: 12}[t] }},
 			// run only as a child process of a nofeature case
 			{Name: "nofeature-child", Run: c16NoFeatureChild, Cases: func(rig.Tier) int { return 0 }},
+			// entity [0] (DeviceInformation): histories on its DeviceDiagnosis server feature, each in a child process; only "no panic" is judged
+			{Name: "entity0", Run: c16Entity0, Workers: 8, Chunk: 1, Procs: 2, Quiet: 120 * time.Second, Cases: func(t rig.Tier) int { return len(c16Entity0Histories) }},
+			{Name: "entity0-child", Run: c16Entity0Child, Cases: func(rig.Tier) int { return 0 }},
 		},
 	})
 }
@@ -102,6 +133,12 @@ type c16Notify struct {
 	HasTS     bool
 	Timeout   time.Duration
 	HasTO     bool
+	RawTO     string // the announced timeout as it is written in the datagram
+	Src, Dst  string // addressSource / addressDestination of the datagram
+	// the heartbeat counter the function data of the source feature showed while this notify was inside the writer
+	DataCtr   uint64
+	DataHas   bool
+	DataKnown bool // the source address is a DeviceDiagnosis feature of this case
 }
 
 type c16Tap struct {
@@ -111,6 +148,58 @@ type c16Tap struct {
 	// slow writer: the next heartbeat notify is held for `hold` (schedule widening, like a congested connection)
 	hold    int64 // nanoseconds, consumed by the next heartbeat notify
 	entered chan struct{}
+	// data reads the heartbeat counter in the function data of the feature with address src (set before the
+	// connection exists, never changed afterwards)
+	data func(src string) (ctr uint64, has, known bool)
+}
+
+// c16ParseDuration parses an xs:duration restricted to days, hours, minutes and (fractional) seconds - PnDTnHnMn.nS -
+// independently of the library's own parser: the announced heartbeat timeout is what is written in the datagram.
+func c16ParseDuration(s string) (time.Duration, bool) {
+	if !strings.HasPrefix(s, "P") {
+		return 0, false
+	}
+	var total time.Duration
+	inTime, seen := false, false
+	num := ""
+	for _, r := range s[1:] {
+		switch {
+		case r == 'T':
+			if inTime || num != "" {
+				return 0, false
+			}
+			inTime = true
+		case (r >= '0' && r <= '9') || r == '.':
+			num += string(r)
+		default:
+			if num == "" {
+				return 0, false
+			}
+			f, err := strconv.ParseFloat(num, 64)
+			if err != nil {
+				return 0, false
+			}
+			var unit time.Duration
+			switch {
+			case r == 'D' && !inTime:
+				unit = 24 * time.Hour
+			case r == 'H' && inTime:
+				unit = time.Hour
+			case r == 'M' && inTime:
+				unit = time.Minute
+			case r == 'S' && inTime:
+				unit = time.Second
+			default:
+				return 0, false // years, months, weeks: no heartbeat timeout this check could judge
+			}
+			total += time.Duration(math.Round(f * float64(unit)))
+			num, seen = "", true
+		}
+	}
+	if num != "" || !seen {
+		return 0, false
+	}
+	return total, true
 }
 
 func (t *c16Tap) WriteShipMessageWithPayload(m []byte) {
@@ -129,7 +218,7 @@ func (t *c16Tap) WriteShipMessageWithPayload(m []byte) {
 		t.mu.Unlock()
 		return
 	}
-	n := c16Notify{Seq: rig.Seq(), At: time.Now(), Goid: eGoid()}
+	n := c16Notify{Seq: rig.Seq(), At: time.Now(), Goid: eGoid(), Src: rkKey(d.Datagram.Header.AddressSource), Dst: rkKey(d.Datagram.Header.AddressDestination)}
 	if hb.HeartbeatCounter != nil {
 		n.Counter, n.HasCtr = *hb.HeartbeatCounter, true
 	}
@@ -139,9 +228,14 @@ func (t *c16Tap) WriteShipMessageWithPayload(m []byte) {
 		}
 	}
 	if hb.HeartbeatTimeout != nil {
-		if to, err := hb.HeartbeatTimeout.GetTimeDuration(); err == nil {
+		n.RawTO = string(*hb.HeartbeatTimeout)
+		if to, ok := c16ParseDuration(n.RawTO); ok {
 			n.Timeout, n.HasTO = to, true
 		}
+	}
+	// SetData stores the refresh before it notifies: the function data cannot be behind what is being notified
+	if t.data != nil {
+		n.DataCtr, n.DataHas, n.DataKnown = t.data(n.Src)
 	}
 	if h := atomic.SwapInt64(&t.hold, 0); h > 0 {
 		select {
@@ -192,6 +286,35 @@ type c16Lag struct {
 	Late time.Duration
 }
 
+// c16Twin is a second entity ([2], or nested [1,1]) with its own DeviceDiagnosis server feature, heartbeat manager,
+// timeout and subscription of the observed peer. No Stop/RemoveEntity is ever called for it: whatever the history does to
+// entity [1], the twin's heartbeat must go on ("an entity's heartbeat", per-entity counter).
+type c16Twin struct {
+	addr    []uint
+	nested  bool
+	ent     *spine.EntityLocal
+	dd      api.FeatureLocalInterface
+	hm      api.HeartbeatManagerInterface
+	timeout time.Duration
+	period  time.Duration
+	src     string // address of its DeviceDiagnosis feature as it appears in addressSource
+	dst     string // the peer's client feature subscribed to it
+	// under c16Env.mu
+	streams map[int64]*c16Stream
+	periods []time.Duration
+	addSeq  int64 // rig.Seq after AddFunctionType(heartbeat) returned for it (0: not yet)
+	judged  int
+}
+
+// c16Late is a second healthy peer that is connected from the beginning but subscribes to the DeviceDiagnosis
+// feature of entity [1] only later, while the heartbeat runs.
+type c16Late struct {
+	tap             *c16Tap
+	peer            *rig.Peer
+	dst             string
+	subCall, subRet int64 // rig.Seq around the subscription request (0: not subscribed)
+}
+
 type c16Env struct {
 	c       *rig.Ctx
 	w       *rig.World
@@ -220,6 +343,11 @@ type c16Env struct {
 	runningCP, stoppedCP, undecided int
 	trace                           []string
 
+	srcA, dstA string // addresses every heartbeat notify of entity [1] must carry
+	tw         *c16Twin
+	late       *c16Late
+	removed    bool // RemoveEntity was called for entity [1] (possibly by a concurrent goroutine)
+
 	hasPeer bool      // an observed peer subscribed to the DeviceDiagnosis feature
 	mute    *rig.Peer // a peer whose connection cannot send subscribed before the observed one (nil: none)
 	// lost: a running checkpoint saw refreshes become visible in the function data whose notifies never reached
@@ -230,7 +358,14 @@ type c16Env struct {
 // c16Opt: peer = an observed peer subscribes to the DeviceDiagnosis feature; mute = a peer without write handler
 // (x_mute.go) subscribes before it; unadded = the entity is created with NewEntityLocal but never passed to
 // DeviceLocal.AddEntity (then nobody can subscribe: refreshes are observed through DataCopy only).
-type c16Opt struct{ peer, mute, unadded bool }
+// twin = address of a second entity with its own heartbeat (nil: none), twinTimeout its heartbeat timeout;
+// late = a second healthy peer is connected that subscribes later (c16Env.lateSubscribe).
+type c16Opt struct {
+	peer, mute, unadded bool
+	twin                []uint
+	twinTimeout         time.Duration
+	late                bool
+}
 
 func newC16Env(c *rig.Ctx, timeout time.Duration, withPeer bool) *c16Env {
 	return newC16EnvOpt(c, timeout, c16Opt{peer: withPeer})
@@ -251,42 +386,69 @@ func newC16EnvOpt(c *rig.Ctx, timeout time.Duration, opt c16Opt) *c16Env {
 	}
 	e.dd = e.ent.GetOrAddFeature(model.FeatureTypeTypeDeviceDiagnosis, model.RoleTypeServer)
 	e.hm = e.ent.HeartbeatManager()
+	e.srcA, e.dstA = rkKey(e.dd.Address()), rkKey(rig.FA("dev0", []uint{1}, 1))
+	if len(opt.twin) > 0 && withPeer {
+		tw := &c16Twin{addr: opt.twin, nested: len(opt.twin) > 1, timeout: opt.twinTimeout, period: opt.twinTimeout, streams: map[int64]*c16Stream{}}
+		if tw.timeout > 2*time.Second {
+			tw.period = tw.timeout - 2*time.Second
+		}
+		tw.ent = e.w.AddEntity(model.EntityTypeTypeEV, opt.twin, tw.timeout)
+		tw.dd = tw.ent.GetOrAddFeature(model.FeatureTypeTypeDeviceDiagnosis, model.RoleTypeServer)
+		tw.hm = tw.ent.HeartbeatManager()
+		tw.src, tw.dst = rkKey(tw.dd.Address()), rkKey(rig.FA("dev0", []uint{1}, 2))
+		e.tw = tw
+		c.Count("cases_with_a_second_entity_with_its_own_heartbeat:"+rkEnt(tw.dd.Address().Entity), 1)
+	}
+	e.tap.data = e.dataOf
 	e.h = rig.InstallHooks()
+	// the period record precedes the enter record on the same goroutine; it is attributed to the manager there
 	e.h.On("Heartbeat.stream.period", func(obj any) {
 		d, _ := obj.(time.Duration)
 		g := eGoid()
 		e.mu.Lock()
 		e.pendingPer[g] = d
-		e.periods = append(e.periods, d)
 		e.mu.Unlock()
 	})
 	e.h.On("Heartbeat.stream.enter", func(obj any) {
-		if obj != any(e.hm) {
-			return
-		}
 		g := eGoid()
 		s := rig.Seq()
 		e.mu.Lock()
-		e.streams[g] = &c16Stream{Goid: g, Enter: s, Period: e.pendingPer[g]}
-		e.mu.Unlock()
+		defer e.mu.Unlock()
+		switch {
+		case obj == any(e.hm):
+			e.streams[g] = &c16Stream{Goid: g, Enter: s, Period: e.pendingPer[g]}
+			e.periods = append(e.periods, e.pendingPer[g])
+		case e.tw != nil && obj == any(e.tw.hm):
+			e.tw.streams[g] = &c16Stream{Goid: g, Enter: s, Period: e.pendingPer[g]}
+			e.tw.periods = append(e.tw.periods, e.pendingPer[g])
+		}
 	})
 	e.h.On("Heartbeat.stream.exit", func(obj any) {
-		if obj != any(e.hm) {
-			return
-		}
 		g := eGoid()
 		s := rig.Seq()
 		e.mu.Lock()
-		if st := e.streams[g]; st != nil {
-			st.Exit = s
+		defer e.mu.Unlock()
+		switch {
+		case obj == any(e.hm):
+			if st := e.streams[g]; st != nil {
+				st.Exit = s
+			}
+		case e.tw != nil && obj == any(e.tw.hm):
+			if st := e.tw.streams[g]; st != nil {
+				st.Exit = s
+			}
 		}
-		e.mu.Unlock()
 	})
 	ddClient := rig.FS{Ent: []uint{1}, Id: 1, Typ: model.FeatureTypeTypeDeviceDiagnosis, Role: model.RoleTypeClient}
+	ddClient2 := rig.FS{Ent: []uint{1}, Id: 2, Typ: model.FeatureTypeTypeDeviceDiagnosis, Role: model.RoleTypeClient}
 	if withPeer && opt.mute {
 		// every send to this peer fails; it subscribes first, so its entry precedes the observed peer's
 		e.mute = addMutePeer(e.w, 0)
-		if why := muteSubscribeFirst(e.w, e.mute, []rig.FS{rig.NMFS, ddClient}, []muteSub{{rig.FA(e.mute.Addr, []uint{1}, 1), e.dd.Address(), model.FeatureTypeTypeDeviceDiagnosis}}); why != "" {
+		subs := []muteSub{{rig.FA(e.mute.Addr, []uint{1}, 1), e.dd.Address(), model.FeatureTypeTypeDeviceDiagnosis}}
+		if e.tw != nil {
+			subs = append(subs, muteSub{rig.FA(e.mute.Addr, []uint{1}, 2), e.tw.dd.Address(), model.FeatureTypeTypeDeviceDiagnosis})
+		}
+		if why := muteSubscribeFirst(e.w, e.mute, []rig.FS{rig.NMFS, ddClient, ddClient2}, subs); why != "" {
 			c.Inconclusive("setup of the mute peer: %s", why)
 		}
 		c.Count("cases_with_a_mute_first_subscriber", 1)
@@ -297,7 +459,7 @@ func newC16EnvOpt(c *rig.Ctx, timeout time.Duration, opt c16Opt) *c16Env {
 		e.w.Local.SetupRemoteDevice(p.Ski, e.tap)
 		p.RD = e.w.Local.RemoteDeviceForSki(p.Ski)
 		e.w.Peers = append(e.w.Peers, p)
-		p.Announce([]rig.FS{rig.NMFS, ddClient})
+		p.Announce([]rig.FS{rig.NMFS, ddClient, ddClient2})
 		p.Subscribe(rig.FA(p.Addr, []uint{1}, 1), e.dd.Address(), model.FeatureTypeTypeDeviceDiagnosis)
 		want := 1
 		if e.mute != nil {
@@ -306,8 +468,194 @@ func newC16EnvOpt(c *rig.Ctx, timeout time.Duration, opt c16Opt) *c16Env {
 		if n := len(e.w.Local.SubscriptionManager().SubscriptionsOnFeature(*e.dd.Address())); n != want {
 			c.Inconclusive("the peer's subscription to the DeviceDiagnosis feature was not accepted (%d subscriptions, expected %d)", n, want)
 		}
+		if e.tw != nil {
+			p.Subscribe(rig.FA(p.Addr, []uint{1}, 2), e.tw.dd.Address(), model.FeatureTypeTypeDeviceDiagnosis)
+			if n := len(e.w.Local.SubscriptionManager().SubscriptionsOnFeature(*e.tw.dd.Address())); n != want {
+				c.Inconclusive("the peer's subscription to the DeviceDiagnosis feature of the second entity was not accepted (%d subscriptions, expected %d)", n, want)
+			}
+		}
+	}
+	if withPeer && opt.late {
+		// connected and announced now, subscribes later
+		p := &rig.Peer{Ski: c.Tag() + "-ski1", Addr: "dev1", Tap: &rig.Tap{}, W: e.w, Ctr: 2000}
+		l := &c16Late{tap: &c16Tap{entered: make(chan struct{}, 1), data: e.dataOf}, peer: p, dst: rkKey(rig.FA("dev1", []uint{1}, 1))}
+		e.w.Local.SetupRemoteDevice(p.Ski, l.tap)
+		p.RD = e.w.Local.RemoteDeviceForSki(p.Ski)
+		e.w.Peers = append(e.w.Peers, p)
+		p.Announce([]rig.FS{rig.NMFS, ddClient})
+		e.late = l
 	}
 	return e
+}
+
+func c16CounterOf(f api.FeatureLocalInterface) (uint64, bool) {
+	v := f.DataCopy(model.FunctionTypeDeviceDiagnosisHeartbeatData)
+	if rig.IsNil(v) {
+		return 0, false
+	}
+	d, ok := v.(*model.DeviceDiagnosisHeartbeatDataType)
+	if !ok || d == nil || d.HeartbeatCounter == nil {
+		return 0, false
+	}
+	return *d.HeartbeatCounter, true
+}
+
+// dataOf is the tap's view on the function data (called from inside the writers).
+func (e *c16Env) dataOf(src string) (ctr uint64, has, known bool) {
+	switch {
+	case src == e.srcA:
+		ctr, has = c16CounterOf(e.dd)
+		return ctr, has, true
+	case e.tw != nil && src == e.tw.src:
+		ctr, has = c16CounterOf(e.tw.dd)
+		return ctr, has, true
+	}
+	return 0, false, false
+}
+
+// mine returns the heartbeat notifies the observed peer received from the DeviceDiagnosis feature of entity [1];
+// of returns those with another addressSource.
+func (e *c16Env) mine() []c16Notify { return e.of(e.srcA) }
+
+func (e *c16Env) of(src string) []c16Notify {
+	var r []c16Notify
+	for _, n := range e.tap.notifies() {
+		if n.Src == src {
+			r = append(r, n)
+		}
+	}
+	return r
+}
+
+// twinAdd adds the heartbeat function to the second entity's DeviceDiagnosis feature: its heartbeat starts.
+func (e *c16Env) twinAdd() {
+	tw := e.tw
+	if tw == nil {
+		return
+	}
+	if p := eGuard(e.c, "AddFunctionType on the second entity", func() {
+		tw.dd.AddFunctionType(model.FunctionTypeDeviceDiagnosisHeartbeatData, true, false)
+	}); p != "" {
+		e.c.Violate("call-panics/add", "AddFunctionType(heartbeat) on the DeviceDiagnosis feature of entity %s panicked: %s\n history of entity [1]: %s", rkEnt(tw.dd.Address().Entity), p, e.history())
+	}
+	e.mu.Lock()
+	tw.addSeq = rig.Seq()
+	e.mu.Unlock()
+	e.note("second entity %s: AddFunctionType(heartbeat) returned at seq %d, timeout %s", rkEnt(tw.dd.Address().Entity), tw.addSeq, tw.timeout)
+}
+
+func (e *c16Env) twinLive() int {
+	e.mu.Lock()
+	defer e.mu.Unlock()
+	n := 0
+	for _, s := range e.tw.streams {
+		if s.Exit == 0 {
+			n++
+		}
+	}
+	return n
+}
+
+// twinIntact: all calls of the history of entity [1] so far have returned (seq s; op = the call that decided its
+// state). No Stop and no RemoveEntity was ever called for the second entity, so its heartbeat is running and must
+// be refreshed: IsHeartbeatRunning is true, and two further refreshes of it reach the peer (waited for; if none
+// arrives and the hook gauge shows that it has no stream goroutine any more, that is the verdict on logged order).
+// For a nested twin [1,1] nothing is judged once RemoveEntity was called for its parent [1]: whether the removal of
+// an entity ends the heartbeats of its sub-entities is not decided by the statement.
+func (e *c16Env) twinIntact(op string, s int64) {
+	tw := e.tw
+	e.mu.Lock()
+	removed := e.removed
+	var added bool
+	if tw != nil {
+		added = tw.addSeq != 0
+	}
+	e.mu.Unlock()
+	if tw == nil || !added || (tw.nested && removed) || e.c.Failed() {
+		return
+	}
+	ent := rkEnt(tw.dd.Address().Entity)
+	running := false
+	if p := eGuard(e.c, "IsHeartbeatRunning on the second entity", func() { running = tw.hm.IsHeartbeatRunning() }); p != "" {
+		e.c.Violate("call-panics/isrunning", "IsHeartbeatRunning on entity %s panicked: %s", ent, p)
+		return
+	}
+	e.c.Events(1)
+	if !running {
+		e.c.Violate(op+"/stops-the-heartbeat-of-another-entity", "after %s on entity [1] returned (seq %d), IsHeartbeatRunning() of entity %s is false although neither StopHeartbeat nor RemoveEntity was ever called for it (live stream goroutines of it: %d)\n history of entity [1]: %s", op, s, ent, e.twinLive(), e.history())
+		return
+	}
+	cnt := func() int {
+		n := 0
+		for _, x := range e.of(tw.src) {
+			if x.Seq > s {
+				n++
+			}
+		}
+		return n
+	}
+	from := time.Now()
+	limit := 16*tw.period + 15*time.Second
+	if rig.WaitFor(limit, func() bool { return cnt() >= 2 }) {
+		e.c.Events(2)
+		e.mu.Lock()
+		tw.judged++
+		e.mu.Unlock()
+		return
+	}
+	live, n := e.twinLive(), cnt()
+	switch {
+	case n == 0 && live == 0 && e.samplerOnTime(from, time.Now()):
+		e.c.Violate(op+"/ends-the-stream-of-another-entity", "after %s on entity [1] returned (seq %d) entity %s reports IsHeartbeatRunning() = true, but it has no live stream goroutine (hook gauge) and none of its refreshes reached the subscribed peer within %s\n history of entity [1]: %s", op, s, ent, limit, e.history())
+	case n == 0 && e.samplerOnTime(from, time.Now()):
+		e.c.Violate(op+"/silences-the-heartbeat-of-another-entity", "after %s on entity [1] returned (seq %d) entity %s reports IsHeartbeatRunning() = true and has %d live stream goroutines, but none of its refreshes reached the subscribed peer within %s (timeout %s) although the harness's own timer was on time\n history of entity [1]: %s", op, s, ent, live, limit, tw.timeout, e.history())
+	default:
+		e.undecided++
+		e.c.Inconclusive("after %s on entity [1] only %d refreshes of entity %s were observed within %s", op, n, ent, limit)
+	}
+}
+
+// samplerOnTime is the starvation guard: the harness's own sampler timer runs in the same scheduler as the stream
+// goroutines; if it woke up regularly in the window (at least half of the nominal number of wake-ups, at most 10% of
+// them more than 50 ms late) the process got the CPU and a heartbeat that is really running would have ticked.
+func (e *c16Env) samplerOnTime(from, to time.Time) bool {
+	e.mu.Lock()
+	defer e.mu.Unlock()
+	if e.sampleIv <= 0 {
+		return false
+	}
+	n, late := 0, 0
+	for _, l := range e.lags {
+		if l.At.After(from) && l.At.Before(to) {
+			n++
+			if l.Late > 50*time.Millisecond {
+				late++
+			}
+		}
+	}
+	return n > 0 && n >= int(to.Sub(from)/e.sampleIv)/2 && late*10 <= n
+}
+
+// lateSubscribe: the second healthy peer subscribes to the DeviceDiagnosis feature of entity [1] now (the heartbeat
+// is running, no call is in progress). finish() judges that it receives every later refresh.
+func (e *c16Env) lateSubscribe() {
+	l := e.late
+	if l == nil || l.subRet != 0 {
+		return
+	}
+	before := len(e.w.Local.SubscriptionManager().SubscriptionsOnFeature(*e.dd.Address()))
+	call := rig.Seq()
+	l.peer.Subscribe(rig.FA(l.peer.Addr, []uint{1}, 1), e.dd.Address(), model.FeatureTypeTypeDeviceDiagnosis)
+	ret := rig.Seq()
+	if n := len(e.w.Local.SubscriptionManager().SubscriptionsOnFeature(*e.dd.Address())); n != before+1 {
+		e.c.Inconclusive("the late subscription to the DeviceDiagnosis feature was not accepted (%d subscriptions before, %d now)", before, n)
+		return
+	}
+	e.mu.Lock()
+	l.subCall, l.subRet = call, ret
+	e.mu.Unlock()
+	e.c.Count("subscriptions_made_while_the_heartbeat_runs", 1)
+	e.note("a second peer subscribed to the DeviceDiagnosis feature while the heartbeat runs (seq %d-%d)", call, ret)
 }
 
 // close stops everything this case started (the entity may have been removed from the device, so
@@ -320,12 +668,25 @@ func (e *c16Env) close() {
 	}
 	e.sampleWG.Wait()
 	rig.Guard(10*time.Second, func() { e.hm.StopHeartbeat() })
+	if e.tw != nil {
+		rig.Guard(10*time.Second, func() { e.tw.hm.StopHeartbeat() })
+		rig.WaitFor(5*time.Second, func() bool { return e.twinLive() == 0 })
+	}
 	rig.WaitFor(5*time.Second, func() bool { return e.live() == 0 })
 	e.h.Uninstall()
 	if e.mute != nil {
 		e.w.Local.RemoveRemoteDeviceConnection(e.mute.Ski) // World.Close does not know this peer
 	}
 	e.w.Close()
+}
+
+// subscribed: refreshes can be waited for on the observed peer's writer (not after RemoveEntity was called for the
+// entity: what a removal does to the subscriptions of remote peers is not decided by the statement; then the
+// heartbeat counter in the function data is watched instead)
+func (e *c16Env) subscribed() bool {
+	e.mu.Lock()
+	defer e.mu.Unlock()
+	return e.hasPeer && !e.removed
 }
 
 func (e *c16Env) live() int {
@@ -340,16 +701,15 @@ func (e *c16Env) live() int {
 	return n
 }
 
-func (e *c16Env) counter() (uint64, bool) {
+func (e *c16Env) counter() (uint64, bool) { return c16CounterOf(e.dd) }
+
+// dataJSON renders the whole heartbeat data of entity [1] (counter, timestamp, timeout).
+func (e *c16Env) dataJSON() string {
 	v := e.dd.DataCopy(model.FunctionTypeDeviceDiagnosisHeartbeatData)
 	if rig.IsNil(v) {
-		return 0, false
+		return "<none>"
 	}
-	d, ok := v.(*model.DeviceDiagnosisHeartbeatDataType)
-	if !ok || d == nil || d.HeartbeatCounter == nil {
-		return 0, false
-	}
-	return *d.HeartbeatCounter, true
+	return rig.JS(v)
 }
 
 func (e *c16Env) startSampler() {
@@ -398,6 +758,7 @@ func (e *c16Env) call(op, by string) (res string) {
 			if e.removeCall == 0 {
 				e.removeCall = rig.Seq()
 			}
+			e.removed = true
 			e.mu.Unlock()
 		}
 		cl = rig.Seq()
@@ -452,7 +813,7 @@ func (e *c16Env) note(f string, a ...any) {
 // after returns the heartbeat notifies that entered the writer after Seq s, by writing goroutine.
 func (e *c16Env) after(s int64) (byG map[int64]int, total int) {
 	byG = map[int64]int{}
-	for _, n := range e.tap.notifies() {
+	for _, n := range e.mine() {
 		if n.Seq > s {
 			byG[n.Goid]++
 			total++
@@ -466,7 +827,7 @@ func (e *c16Env) after(s int64) (byG map[int64]int, total int) {
 // previous SetData returned).
 func (e *c16Env) provableAfter(s int64) (n int, detail []string) {
 	lastDone := map[int64]int64{}
-	for _, x := range e.tap.notifies() {
+	for _, x := range e.mine() {
 		if d, ok := lastDone[x.Goid]; ok && d > s {
 			n++
 			detail = append(detail, fmt.Sprintf("g%d: notify counter=%d entered the writer at %d, the previous one of this stream had completed at %d (> %d)", x.Goid, x.Counter, x.Seq, d, s))
@@ -481,6 +842,7 @@ func (e *c16Env) provableAfter(s int64) (n int, detail []string) {
 func (e *c16Env) checkpointRunning(op string, s int64, v0 uint64, v0ok bool, subscribed bool, k int) {
 	limit := time.Duration(k+2)*e.period*4 + 15*time.Second
 	lost := ""
+	from := time.Now()
 	ok := rig.WaitFor(limit, func() bool {
 		if subscribed {
 			byG, total := e.after(s)
@@ -509,7 +871,31 @@ func (e *c16Env) checkpointRunning(op string, s int64, v0 uint64, v0ok bool, sub
 	}
 	if !ok {
 		e.undecided++
-		e.c.Inconclusive("after %s the heartbeat should run but fewer than %d refreshes were observed within %s (history: %s)", op, k, limit, e.history())
+		// "refreshed periodically while running", judged on logged order: every call has returned, the one that
+		// decided the state was a start (or the AddFunctionType that starts the heartbeat), nothing was called since
+		// (seq s), IsHeartbeatRunning says running - and not one refresh became visible, neither on the subscribed
+		// peer's writer nor in the function data. If in addition the hook gauge shows that no stream goroutine is
+		// alive, nothing is left that could ever refresh the data. Both verdicts only if the harness's own timer
+		// shows that the process was not starved during the wait (otherwise inconclusive, as before).
+		_, total := e.after(s)
+		v, has := e.counter()
+		none := total == 0 && (!has || (v0ok && v == v0))
+		running, live := false, e.live()
+		if p := eGuard(e.c, "IsHeartbeatRunning", func() { running = e.hm.IsHeartbeatRunning() }); p != "" {
+			e.c.Violate("call-panics/isrunning", "IsHeartbeatRunning panicked: %s", p)
+			return
+		}
+		onTime := e.samplerOnTime(from, time.Now())
+		switch {
+		case none && running && live == 0 && onTime:
+			e.c.Events(1)
+			e.c.Violate(op+"/running-without-a-stream", "after %s returned (seq %d) IsHeartbeatRunning() = true, but no stream goroutine is alive (hook gauge: every stream that entered has left) and no refresh became visible within %s: the data of a running heartbeat is not refreshed\n history: %s", op, s, limit, e.history())
+		case none && running && onTime:
+			e.c.Events(1)
+			e.c.Violate(op+"/no-refresh-while-running", "after %s returned (seq %d) IsHeartbeatRunning() = true and %d stream goroutines are alive, but no refresh became visible within %s (announced timeout about %s) although the harness's own timer was on time\n history: %s", op, s, live, limit, e.timeout, e.history())
+		default:
+			e.c.Inconclusive("after %s the heartbeat should run but fewer than %d refreshes were observed within %s (IsHeartbeatRunning=%v, live streams %d, harness timer on time: %v; history: %s)", op, k, limit, running, live, onTime, e.history())
+		}
 		return
 	}
 	byG, total := e.after(s)
@@ -545,12 +931,30 @@ func (e *c16Env) checkpointRunning(op string, s int64, v0 uint64, v0ok bool, sub
 		}
 	}
 	e.runningCP++
+	e.twinIntact(op, s)
 }
 
 // checkpointStopped: all calls have returned (Seq s), the last one was Stop or RemoveEntity.
 func (e *c16Env) checkpointStopped(op string, s int64, v0 uint64, v0ok bool, extra time.Duration) {
-	time.Sleep(3*e.period + extra) // three periods of silence: waiting on the stack's own ticker
+	// "the data then stays unchanged" is judged on the whole heartbeat data (counter, timestamp, timeout): d0 right
+	// after the call returned, dA after two periods of silence, dB after the third
+	d0 := e.dataJSON()
+	time.Sleep(2*e.period + extra) // three periods of silence: waiting on the stack's own ticker
+	dA := e.dataJSON()
+	vA, vAok := e.counter()
+	time.Sleep(e.period)
 	gaugeOK := rig.WaitFor(10*time.Second, func() bool { return e.live() == 0 })
+	dB := e.dataJSON()
+	vB, vBok := e.counter()
+	e.c.Events(1)
+	switch {
+	case vAok && vBok && vA == vB && dA != dB:
+		e.c.Violate(op+"/data-changed-after-return", "after %s returned (seq %d) the heartbeat data was rewritten with the same counter: after two periods of silence it read %s, one period later %s\n history: %s", op, s, dA, dB, e.history())
+	case v0ok && vBok && v0 == vB && d0 != dB:
+		e.c.Violate(op+"/data-changed-after-return", "the heartbeat data read %s right after %s returned (seq %d) and reads %s three periods later: same counter, different content\n history: %s", d0, op, s, dB, e.history())
+	case vAok != vBok || (v0ok && !vBok):
+		e.c.Violate(op+"/data-changed-after-return", "the heartbeat data was %s right after %s returned (seq %d), %s two periods later and %s after the third: it did not stay unchanged\n history: %s", d0, op, s, dA, dB, e.history())
+	}
 	p, detail := e.provableAfter(s)
 	_, total := e.after(s)
 	dc := 0
@@ -577,18 +981,25 @@ func (e *c16Env) checkpointStopped(op string, s int64, v0 uint64, v0ok bool, ext
 		return
 	}
 	e.stoppedCP++
+	e.twinIntact(op, s)
 }
 
 // finish judges the oracles that look at the whole case: (1) monotone counters and timestamps,
 // (2) period <= announced timeout, (3) sampled refreshes were notified.
 func (e *c16Env) finish() {
 	c := e.c
-	ns := e.tap.notifies()
-	// until a notify shows the announced timeout: what the configured value is announced as
+	ns := e.mine()
+	// until a notify shows the announced timeout: what the function data announces (parsed by the check itself),
+	// else the configured value
 	announced := e.timeout
-	if d, err := model.NewDurationType(e.timeout).GetTimeDuration(); err == nil && d > 0 {
-		announced = d
+	if v, ok := e.dd.DataCopy(model.FunctionTypeDeviceDiagnosisHeartbeatData).(*model.DeviceDiagnosisHeartbeatDataType); ok && v != nil && v.HeartbeatTimeout != nil {
+		if d, ok := c16ParseDuration(string(*v.HeartbeatTimeout)); ok && d > 0 {
+			announced = d
+		}
 	}
+	e.judgeAddressing()
+	e.judgeTwin()
+	e.judgeLate()
 	var prev *c16Notify
 	lastAtByG := map[int64]time.Time{}
 	lastDoneByG := map[int64]c16Notify{}
@@ -601,9 +1012,22 @@ func (e *c16Env) finish() {
 		if n.HasTO {
 			announced = n.Timeout
 		}
+		if n.HasCtr && n.HasTS && !n.HasTO && n.RawTO != "" {
+			c.Inconclusive("the announced heartbeat timeout %q is not of the form PnDTnHnMnS: cannot be judged", n.RawTO)
+			continue
+		}
 		if !n.HasCtr || !n.HasTS || !n.HasTO {
 			c.Violate("notify/incomplete-heartbeat-data", "heartbeat notify %d lacks counter, timestamp or timeout: %+v", i, n)
 			continue
+		}
+		// the refresh is stored before it is notified: while the notify was inside the writer the function data showed
+		// at least its counter (causal: read by the writer itself)
+		if n.DataKnown {
+			c.Events(1)
+			c.Count("notifies_compared_with_the_function_data_inside_the_writer", 1)
+			if !n.DataHas || n.DataCtr < n.Counter {
+				c.Violate("refresh/notified-but-not-stored", "the notify with heartbeat counter %d was being written to the subscriber (seq %d) while DataCopy of the same feature showed counter %d (present: %v): the notified refresh is not in the function data\n history: %s", n.Counter, n.Seq, n.DataCtr, n.DataHas, e.history())
+			}
 		}
 		if prev != nil {
 			if n.Counter <= prev.Counter {
@@ -817,14 +1241,182 @@ func (e *c16Env) sample() map[string]any {
 	}
 	e.mu.Unlock()
 	var hb []string
-	for i, n := range e.tap.notifies() {
+	for i, n := range e.mine() {
 		if i >= 40 {
 			hb = append(hb, "…")
 			break
 		}
 		hb = append(hb, fmt.Sprintf("seq %d-%d g%d counter=%d ts=%s timeout=%s", n.Seq, n.Done, n.Goid, n.Counter, n.TS.Format("15:04:05"), n.Timeout))
 	}
-	return map[string]any{"timeout": e.timeout.String(), "mute_first_subscriber": e.mute != nil, "observed_subscriber": e.hasPeer, "history": e.history(), "periods_chosen": ps, "checkpoints": tr, "notifies": hb}
+	m := map[string]any{"timeout": e.timeout.String(), "mute_first_subscriber": e.mute != nil, "observed_subscriber": e.hasPeer, "history": e.history(), "periods_chosen": ps, "checkpoints": tr, "notifies": hb}
+	if tw := e.tw; tw != nil {
+		e.mu.Lock()
+		m["second_entity"] = map[string]any{"address": rkEnt(tw.dd.Address().Entity), "timeout": tw.timeout.String(), "notifies": len(e.of(tw.src)), "stream_goroutines": len(tw.streams), "intact_checks_passed": tw.judged}
+		e.mu.Unlock()
+	}
+	if l := e.late; l != nil {
+		m["late_subscriber"] = map[string]any{"subscribed_at_seq": l.subRet, "notifies": len(l.tap.notifies())}
+	}
+	return m
+}
+
+// judgeAddressing: every heartbeat notify on the observed peer's writer comes from the DeviceDiagnosis feature of
+// entity [1] or of the second entity and goes to the client feature that subscribed to exactly that feature; a notify
+// written by a stream goroutine (known from the hook: which manager it belongs to) carries that entity's address.
+func (e *c16Env) judgeAddressing() {
+	c := e.c
+	e.mu.Lock()
+	owner := map[int64]string{}
+	for g := range e.streams {
+		owner[g] = e.srcA
+	}
+	if e.tw != nil {
+		for g := range e.tw.streams {
+			owner[g] = e.tw.src
+		}
+	}
+	e.mu.Unlock()
+	for _, n := range e.tap.notifies() {
+		c.Events(1)
+		want := ""
+		switch {
+		case n.Src == e.srcA:
+			want = e.dstA
+		case e.tw != nil && n.Src == e.tw.src:
+			want = e.tw.dst
+		default:
+			c.Violate("notify/wrong-source-address", "a heartbeat notify (counter %d, seq %d) carries addressSource %s; the subscribed DeviceDiagnosis features of this case are %s%s", n.Counter, n.Seq, n.Src, e.srcA, e.twinSrc())
+			continue
+		}
+		if n.Dst != want {
+			c.Violate("notify/wrong-destination-address", "the heartbeat notify of %s (counter %d, seq %d) is addressed to %s; the client feature subscribed to that feature is %s", n.Src, n.Counter, n.Seq, n.Dst, want)
+		}
+		if o, ok := owner[n.Goid]; ok && o != n.Src {
+			c.Violate("notify/stream-of-one-entity-refreshes-another", "the stream goroutine g%d belongs to the heartbeat manager of %s (hook record), but the heartbeat notify it wrote at seq %d (counter %d) carries addressSource %s\n history: %s", n.Goid, o, n.Seq, n.Counter, n.Src, e.history())
+		}
+	}
+	if l := e.late; l != nil {
+		for _, n := range l.tap.notifies() {
+			c.Events(1)
+			if n.Src != e.srcA {
+				c.Violate("notify/wrong-source-address", "the late subscriber, subscribed to %s only, received a heartbeat notify (counter %d) with addressSource %s", e.srcA, n.Counter, n.Src)
+			} else if n.Dst != l.dst {
+				c.Violate("notify/wrong-destination-address", "the heartbeat notify of %s (counter %d) to the late subscriber is addressed to %s, its subscribed client feature is %s", n.Src, n.Counter, n.Dst, l.dst)
+			}
+		}
+	}
+}
+
+func (e *c16Env) twinSrc() string {
+	if e.tw == nil {
+		return ""
+	}
+	return " and " + e.tw.src
+}
+
+// judgeTwin: the second entity's own stream: strictly increasing counters, timestamps that never decrease, complete data
+// stored before it is notified, ticker periods within ITS announced timeout.
+func (e *c16Env) judgeTwin() {
+	tw := e.tw
+	if tw == nil {
+		return
+	}
+	c := e.c
+	ent := rkEnt(tw.dd.Address().Entity)
+	ns := e.of(tw.src)
+	announced := tw.timeout
+	var prev *c16Notify
+	for i := range ns {
+		n := ns[i]
+		c.Events(1)
+		if !n.HasCtr || !n.HasTS || !n.HasTO {
+			if n.RawTO == "" || n.HasTO {
+				c.Violate("notify/incomplete-heartbeat-data", "heartbeat notify %d of entity %s lacks counter, timestamp or timeout: %+v", i, ent, n)
+			}
+			continue
+		}
+		announced = n.Timeout
+		if prev != nil {
+			if n.Counter <= prev.Counter {
+				c.Violate("second-entity/counter-not-strictly-increasing", "entity %s: notify at seq %d carries counter %d after counter %d at seq %d (no call was ever made for this entity after its AddFunctionType)\n history of entity [1]: %s", ent, n.Seq, n.Counter, prev.Counter, prev.Seq, e.history())
+			}
+			if n.TS.Before(prev.TS) {
+				c.Violate("second-entity/timestamp-decreasing", "entity %s: notify at seq %d carries timestamp %s after %s", ent, n.Seq, n.TS.Format(time.RFC3339), prev.TS.Format(time.RFC3339))
+			}
+		}
+		if n.TS.Before(e.start.Add(-1500*time.Millisecond)) || n.TS.After(n.At.Add(1500*time.Millisecond)) {
+			c.Violate("second-entity/timestamp-not-current", "entity %s: notify counter=%d carries timestamp %s; the case started at %s and the notify was received at %s (harness clock)", ent, n.Counter, n.TS.Format(time.RFC3339), e.start.UTC().Format(time.RFC3339Nano), n.At.UTC().Format(time.RFC3339Nano))
+		}
+		if n.DataKnown && (!n.DataHas || n.DataCtr < n.Counter) {
+			c.Violate("refresh/notified-but-not-stored", "entity %s: the notify with heartbeat counter %d was being written to the subscriber while DataCopy of the same feature showed counter %d (present: %v)", ent, n.Counter, n.DataCtr, n.DataHas)
+		}
+		prev = &ns[i]
+	}
+	e.mu.Lock()
+	periods := append([]time.Duration(nil), tw.periods...)
+	nStreams := len(tw.streams)
+	judged := tw.judged
+	e.mu.Unlock()
+	for _, p := range periods {
+		c.Events(1)
+		c.Seen("timeout->period", fmt.Sprintf("%s->%s", announced, p))
+		if p > announced || p <= 0 {
+			c.Violate("period/exceeds-announced-timeout", "the heartbeat stream of entity %s chose the ticker period %s, its announced heartbeat timeout is %s", ent, p, announced)
+		}
+	}
+	if nStreams > 1 {
+		c.Violate("second-entity/more-than-one-stream", "entity %s had %d stream goroutines although only its AddFunctionType(heartbeat) was ever called for it\n history of entity [1]: %s", ent, nStreams, e.history())
+	}
+	c.Count("second_entity_notifies", int64(len(ns)))
+	c.Count("second_entity_intact_after_a_checkpoint_of_entity_1", int64(judged))
+}
+
+// judgeLate: the peer that subscribed while the heartbeat was running receives every later refresh. A refresh is
+// provably later if it was built after the subscription request had returned: it follows, on the same stream
+// goroutine, a notify whose write to the first subscriber was complete after that moment, or its stream goroutine
+// started after it. Judged up to the first RemoveEntity call (what a removal does to the subscriptions of remote
+// peers is not decided by the statement).
+func (e *c16Env) judgeLate() {
+	l := e.late
+	if l == nil {
+		return
+	}
+	c := e.c
+	e.mu.Lock()
+	subRet, removeCall := l.subRet, e.removeCall
+	enter := map[int64]int64{}
+	for g, st := range e.streams {
+		enter[g] = st.Enter
+	}
+	e.mu.Unlock()
+	if subRet == 0 || e.live() != 0 {
+		return
+	}
+	got := map[uint64]bool{}
+	for _, n := range l.tap.notifies() {
+		if n.HasCtr {
+			got[n.Counter] = true
+		}
+		if n.Seq < l.subCall {
+			c.Violate("late-subscriber/notified-before-it-subscribed", "the second peer received the heartbeat notify with counter %d at seq %d, it asked for the subscription at seq %d", n.Counter, n.Seq, l.subCall)
+		}
+	}
+	lastDone := map[int64]int64{}
+	judged := 0
+	for _, n := range e.mine() {
+		d, ok := lastDone[n.Goid]
+		later := (ok && d > subRet) || (enter[n.Goid] > subRet)
+		lastDone[n.Goid] = n.Done
+		if !later || !n.HasCtr || (removeCall != 0 && n.Done > removeCall) {
+			continue
+		}
+		judged++
+		c.Events(1)
+		if !got[n.Counter] {
+			c.Violate("late-subscriber/refresh-not-notified", "the refresh with heartbeat counter %d (written to the first subscriber at seq %d-%d by g%d) was built after the second peer's subscription had returned (seq %d), but that peer never received it (%d notifies reached it)\n history: %s", n.Counter, n.Seq, n.Done, n.Goid, subRet, len(got), e.history())
+		}
+	}
+	c.Count("refreshes_judged_for_the_late_subscriber", int64(judged))
 }
 
 // ---------------------------------------------------------------------------
@@ -840,10 +1432,22 @@ func c16Seq(c *rig.Ctx) {
 	r := c.Rand
 	timeout := c16Timeouts[c.Index%len(c16Timeouts)]
 	flavor := c16SeqFlavors[(c.Index/len(c16Timeouts))%len(c16SeqFlavors)]
+	row := c.Index / len(c16Timeouts)
 	opt := c16Opt{peer: flavor != "never-added", mute: c.Index%2 == 1, unadded: flavor == "never-added"}
+	// a second entity with its own heartbeat in two of three cases ([2] and nested [1,1] in turn, shifted row by row
+	// so that every timeout meets every kind); a peer that subscribes later in every second generated history
+	switch (c.Index + row) % 3 {
+	case 1:
+		opt.twin = []uint{2}
+	case 2:
+		opt.twin = []uint{1, 1}
+	}
+	opt.twinTimeout = c16TwinTimeouts[(c.Index/3+row)%len(c16TwinTimeouts)]
+	opt.late = flavor == "generated" && (c.Index+row)%2 == 0
 	e := newC16EnvOpt(c, timeout, opt)
 	defer e.close()
 	e.startSampler()
+	twinFirst := r.Intn(2) == 0
 	added, running, removed := false, false, false
 	decider := "" // the call that decided the current running state
 	var shape []string
@@ -889,7 +1493,14 @@ func c16Seq(c *rig.Ctx) {
 			do([]string{"stop", "isrunning"}[r.Intn(2)])
 		}
 	}
+	// the second entity's heartbeat starts before or after that of entity [1]
+	if twinFirst {
+		e.twinAdd()
+	}
 	do("add")
+	if !twinFirst {
+		e.twinAdd()
+	}
 	switch flavor {
 	case "restart-after-remove":
 		// the long periods judge only the second half (restart, second removal) in the quick tier
@@ -950,14 +1561,23 @@ func c16Seq(c *rig.Ctx) {
 			}
 		}
 	default:
-		if e.period <= 300*time.Millisecond {
-			// a long uninterrupted run for the effective-period oracle
+		if e.period <= 300*time.Millisecond || (c.Thorough() && row%4 == 0) {
+			// a long uninterrupted run for the effective-period oracle (thorough: also for the long periods)
 			s := rig.Seq()
 			v0, v0ok := e.counter()
 			shape = append(shape, "|")
 			e.checkpointRunning("add", s, v0, v0ok, true, 8)
 		} else {
 			checkpoint("add")
+		}
+		if e.late != nil && goOn() {
+			// a second healthy peer subscribes while the heartbeat runs and no call is in progress; for the short
+			// periods a running checkpoint follows at once, otherwise the refreshes of the bursts below are judged
+			e.lateSubscribe()
+			shape = append(shape, "late-subscribe")
+			if e.period <= 500*time.Millisecond || c.Thorough() {
+				checkpoint("late-subscribe")
+			}
 		}
 		bursts := 3
 		switch {
@@ -1006,7 +1626,7 @@ func c16Seq(c *rig.Ctx) {
 		checkpoint("remove")
 	}
 	e.finish()
-	c.Shape(fmt.Sprintf("%s %s mute=%v %s", timeout, flavor, e.mute != nil, strings.Join(shape, " ")))
+	c.Shape(fmt.Sprintf("%s %s mute=%v twin=%v %s", timeout, flavor, e.mute != nil, opt.twin, strings.Join(shape, " ")))
 	c.NonTrivial(e.runningCP > 0 && e.stoppedCP > 0 && e.undecided == 0)
 	c.Seen("timeouts", timeout.String())
 	c.Count("seq_histories:"+flavor, 1)
@@ -1022,12 +1642,25 @@ func c16Seq(c *rig.Ctx) {
 // (each a bounded number of times). The call is made once every poller is at full speed; when it has returned the
 // pollers are stopped and waited for, so that whatever is judged afterwards is judged at quiescence. A state query
 // is an operation of the quantifier like any other: it must not change what Stop, Start or RemoveEntity achieve.
-func (e *c16Env) contended(op string, n int) (ok bool) {
+//
+// What the queries answer is judged where it is decided: the main goroutine publishes the phase (0 = the call has not
+// begun, 1 = in progress, 2 = it has returned) in an atomic; a query that read phase 0 before AND after itself ended
+// before the call began and must answer `before` (the state the preceding checkpoint established), one that read phase
+// 2 before it began started after the call had returned and must answer `after` (-1: not decided, e.g. unknown prior
+// state). Queries that overlap the call are only counted. Every poller makes at least 50 queries in phase 2.
+func (e *c16Env) contended(op string, n int, before, after int) (ok bool) {
 	const maxCalls = 3_000_000 // per poller
 	var halt atomic.Bool
 	var warm atomic.Int32
-	var calls, trues atomic.Int64
+	var phase atomic.Int32
+	var calls, trues, judged, wrongBefore, wrongAfter atomic.Int64
 	var wg sync.WaitGroup
+	b2i := func(b bool) int {
+		if b {
+			return 1
+		}
+		return 0
+	}
 	for i := 0; i < n; i++ {
 		wg.Add(1)
 		go func() {
@@ -1038,10 +1671,28 @@ func (e *c16Env) contended(op string, n int) (ok bool) {
 					warm.Add(1)
 				}
 			}()
-			var k, t int64
-			for k = 0; k < maxCalls && !halt.Load(); k++ {
-				if e.hm.IsHeartbeatRunning() {
+			var k, t, j, wb, wa, post int64
+			for k = 0; k < maxCalls && !(halt.Load() && post >= 50); k++ {
+				p0 := phase.Load()
+				r := e.hm.IsHeartbeatRunning()
+				p1 := phase.Load()
+				if r {
 					t++
+				}
+				switch {
+				case p0 == 0 && p1 == 0 && before >= 0:
+					j++
+					if b2i(r) != before {
+						wb++
+					}
+				case p0 == 2:
+					post++
+					if after >= 0 {
+						j++
+						if b2i(r) != after {
+							wa++
+						}
+					}
 				}
 				if k == 200 {
 					warm.Add(1)
@@ -1049,10 +1700,15 @@ func (e *c16Env) contended(op string, n int) (ok bool) {
 			}
 			calls.Add(k)
 			trues.Add(t)
+			judged.Add(j)
+			wrongBefore.Add(wb)
+			wrongAfter.Add(wa)
 		}()
 	}
 	rig.WaitFor(10*time.Second, func() bool { return int(warm.Load()) >= n })
+	phase.Store(1)
 	e.call(op, "main")
+	phase.Store(2)
 	halt.Store(true)
 	done := make(chan struct{})
 	go func() { wg.Wait(); close(done) }()
@@ -1064,6 +1720,16 @@ func (e *c16Env) contended(op string, n int) (ok bool) {
 		return false
 	}
 	e.c.Count("isrunning_queries_concurrent_with_a_call", calls.Load())
+	e.c.Count("isrunning_answers_judged(before the call began / after it returned)", judged.Load())
+	if judged.Load() > 0 {
+		e.c.Events(2) // the two classes of answers (before / after the call), not the millions of queries
+	}
+	if wb := wrongBefore.Load(); wb > 0 {
+		e.c.Violate("isrunning/concurrent-query-disagrees-with-the-state-before-the-call", "%d IsHeartbeatRunning() queries that had returned before %s was called (phase flag read before and after the query) answered %v; the state established by the preceding checkpoint is %v\n history: %s", wb, op, before == 0, before == 1, e.history())
+	}
+	if wa := wrongAfter.Load(); wa > 0 {
+		e.c.Violate("isrunning/concurrent-query-disagrees-with-the-returned-call", "%d IsHeartbeatRunning() queries that began after %s had returned answered %v (expected %v)\n history: %s", wa, op, after == 0, after == 1, e.history())
+	}
 	e.c.Count("calls_made_under_concurrent_isrunning_queries:"+op, 1)
 	e.note("%s called while %d goroutines polled IsHeartbeatRunning (%d queries, %d true)", op, n, calls.Load(), trues.Load())
 	return true
@@ -1077,7 +1743,7 @@ func c16Contended(e *c16Env, pollers, trials int, running bool) (stillRunning, o
 		s := rig.Seq()
 		v0, v0ok := e.counter()
 		if run {
-			e.checkpointRunning(op, s, v0, v0ok, true, 3)
+			e.checkpointRunning(op, s, v0, v0ok, e.subscribed(), 3)
 		} else {
 			e.checkpointStopped(op, s, v0, v0ok, 0)
 		}
@@ -1085,14 +1751,14 @@ func c16Contended(e *c16Env, pollers, trials int, running bool) (stillRunning, o
 	for t := 0; t < trials && !c.Failed() && !e.lost; t++ {
 		if running && r.Intn(3) == 0 {
 			// restart: the old stream must be stopped although its state is being queried
-			if !e.contended("start", pollers) {
+			if !e.contended("start", pollers, 1, 1) {
 				return running, false
 			}
 			cp("restart-under-concurrent-isrunning-queries", true)
 			continue
 		}
 		if running {
-			if !e.contended("stop", pollers) {
+			if !e.contended("stop", pollers, 1, 0) {
 				return running, false
 			}
 			running = false
@@ -1101,7 +1767,7 @@ func c16Contended(e *c16Env, pollers, trials int, running bool) (stillRunning, o
 				break
 			}
 		}
-		if !e.contended("start", pollers) {
+		if !e.contended("start", pollers, 0, 1) {
 			return running, false
 		}
 		running = true
@@ -1114,7 +1780,18 @@ func c16Conc(c *rig.Ctx) {
 	r := c.Rand
 	timeout := []time.Duration{100 * time.Millisecond, 300 * time.Millisecond, 100 * time.Millisecond, 300 * time.Millisecond, 100 * time.Millisecond, 2500 * time.Millisecond}[c.Index%6]
 	// a mute first subscriber in every second case, independent of the timeout (the index runs through six timeouts)
-	e := newC16EnvOpt(c, timeout, c16Opt{peer: true, mute: (c.Index/6+c.Index)%2 == 1})
+	opt := c16Opt{peer: true, mute: (c.Index/6+c.Index)%2 == 1, twinTimeout: c16TwinTimeouts[(c.Index/3)%len(c16TwinTimeouts)]}
+	switch (c.Index/4 + c.Index) % 3 {
+	case 1:
+		opt.twin = []uint{2}
+	case 2:
+		opt.twin = []uint{1, 1}
+	}
+	// which calls the concurrent goroutines make besides Start/Stop/IsRunning: 1 = the AddFunctionType that creates
+	// (and starts) the heartbeat is one of them, 2 = RemoveEntity is one of them, 3 = both
+	variant := c.Index % 4
+	lateAdd, concRemove := variant == 1 || variant == 3, variant >= 2
+	e := newC16EnvOpt(c, timeout, opt)
 	defer e.close()
 	e.startSampler()
 	policy := []string{"rendezvous-stop", "rendezvous-start", "rendezvous-both", "jitter", "rendezvous-both+jitter"}[r.Intn(5)]
@@ -1130,8 +1807,9 @@ func c16Conc(c *rig.Ctx) {
 			e.h.Jitter(pt, r.Int63(), 400*time.Microsecond)
 		}
 	}
-	e.call("add", "main")
-	{
+	e.twinAdd()
+	if !lateAdd {
+		e.call("add", "main")
 		s := rig.Seq()
 		v0, ok := e.counter()
 		e.checkpointRunning("add", s, v0, ok, true, 2)
@@ -1147,6 +1825,29 @@ func c16Conc(c *rig.Ctx) {
 		for n := 3 + r.Intn(4); n > 0; n-- {
 			lists[g] = append(lists[g], []string{"start", "stop", "start", "stop", "isrunning"}[r.Intn(5)])
 		}
+	}
+	if lateAdd {
+		// the function does not exist yet: one goroutine adds it (SetLocalFeature starts the heartbeat) while the others
+		// begin with StartHeartbeat (which fails with an error until the feature is known, and restarts afterwards)
+		ga := r.Intn(ng)
+		for g := range lists {
+			if g == ga {
+				lists[g][r.Intn(2)] = "add"
+			} else {
+				lists[g][0] = "start"
+			}
+		}
+	}
+	if concRemove {
+		// RemoveEntity by one goroutine (two in some cases) in the middle of the others' Start/Stop calls
+		for n := 1 + r.Intn(2); n > 0; n-- {
+			g := r.Intn(ng)
+			if i := 1 + r.Intn(len(lists[g])-1); lists[g][i] != "add" {
+				lists[g][i] = "remove"
+			}
+		}
+	}
+	for g := range lists {
 		shape = append(shape, strings.Join(lists[g], ","))
 	}
 	var wg sync.WaitGroup
@@ -1174,8 +1875,17 @@ func c16Conc(c *rig.Ctx) {
 	// which calls can have been the last one to take effect?
 	e.mu.Lock()
 	var ss []c16Call
+	// a call that starts: StartHeartbeat that returned nil, the AddFunctionType that created the function (SetLocalFeature
+	// starts the heartbeat); a call that stops: StopHeartbeat, RemoveEntity. A StartHeartbeat that returned an error
+	// (the feature was not known yet) changes nothing; it could also not have been last unless the add is unordered
+	// with it, and then the add itself is a possible last starter.
 	for _, cl := range e.calls {
-		if cl.Op == "start" || cl.Op == "stop" {
+		switch {
+		case cl.Op == "start" && cl.Res == "", cl.Op == "add":
+			cl.Op = "start"
+			ss = append(ss, cl)
+		case cl.Op == "stop", cl.Op == "remove":
+			cl.Op = "stop"
 			ss = append(ss, cl)
 		}
 	}
@@ -1208,9 +1918,15 @@ func c16Conc(c *rig.Ctx) {
 	}
 	// the state after the concurrent phase, judged with whatever IsHeartbeatRunning reports
 	if isr == "true" {
-		e.checkpointRunning("concurrent-start-stop", s, v0, v0ok, true, 3)
+		e.checkpointRunning("concurrent-start-stop", s, v0, v0ok, e.subscribed(), 3)
 	} else {
 		e.checkpointStopped("concurrent-start-stop", s, v0, v0ok, 0)
+	}
+	if lateAdd {
+		c.Count("concurrent_phases_with_AddFunctionType", 1)
+	}
+	if concRemove {
+		c.Count("concurrent_phases_with_RemoveEntity", 1)
 	}
 	// one final sequential call makes the expectation exact
 	final := []string{"start", "stop"}[r.Intn(2)]
@@ -1222,7 +1938,7 @@ func c16Conc(c *rig.Ctx) {
 			c.Violate("isrunning/disagrees-with-last-call", "IsHeartbeatRunning() = %s after a final sequential %s\n history: %s", got, final, e.history())
 		}
 		if final == "start" {
-			e.checkpointRunning("start-after-concurrent-phase", s, v0, v0ok, true, 3)
+			e.checkpointRunning("start-after-concurrent-phase", s, v0, v0ok, e.subscribed(), 3)
 		} else {
 			e.checkpointStopped("stop-after-concurrent-phase", s, v0, v0ok, 0)
 		}
@@ -1251,7 +1967,7 @@ func c16Conc(c *rig.Ctx) {
 		}
 	}
 	if !c.Failed() {
-		if !e.contended("remove", pollers) {
+		if !e.contended("remove", pollers, -1, 0) {
 			return
 		}
 		s = rig.Seq()
@@ -1259,7 +1975,7 @@ func c16Conc(c *rig.Ctx) {
 		e.checkpointStopped("remove-under-concurrent-isrunning-queries", s, v0, v0ok, 0)
 	}
 	e.finish()
-	c.Shape(fmt.Sprintf("%s %s mute=%v %s final=%s pollers=%d trials=%d", timeout, policy, e.mute != nil, strings.Join(shape, "|"), final, pollers, trials))
+	c.Shape(fmt.Sprintf("%s %s mute=%v twin=%v %s final=%s pollers=%d trials=%d", timeout, policy, e.mute != nil, opt.twin, strings.Join(shape, "|"), final, pollers, trials))
 	c.NonTrivial(e.runningCP > 0 && e.stoppedCP > 0 && e.undecided == 0)
 	c.Seen("timeouts", timeout.String())
 	c.Seen("hook_policies", policy)
@@ -1433,16 +2149,24 @@ func c16NoFeatureChild(c *rig.Ctx) {
 	c.Sample(e.sample())
 }
 
-func c16NoFeature(c *rig.Ctx) {
-	hist := c16NoFeatureHistories[c.Index%len(c16NoFeatureHistories)]
+// c16ChildOut is what a case executed in a child process left behind.
+type c16ChildOut struct {
+	err     error            // how the child process ended (nil: exit status 0)
+	stderr  string           // its stderr (GOTRACEBACK=all)
+	results []rig.CaseResult // the case results it journaled
+}
+
+// c16RunChild executes case c.Index of part `part` in a child process (the worker binary itself), so that a panic on
+// a goroutine the stack spawned - which takes the whole process down - is attributed to exactly this history.
+func c16RunChild(c *rig.Ctx, part string, what string) (out c16ChildOut, ok bool) {
 	exe, err := os.Executable()
 	if err != nil {
 		c.Inconclusive("cannot find the worker binary: %v", err)
-		return
+		return out, false
 	}
-	journal := filepath.Join(os.TempDir(), fmt.Sprintf("c16-nofeature-%d-%d.journal", os.Getpid(), c.Index))
+	journal := filepath.Join(os.TempDir(), fmt.Sprintf("c16-%s-%d-%d.journal", part, os.Getpid(), c.Index))
 	defer os.Remove(journal)
-	args := []string{"-worker", "-prop", "C16", "-part", "nofeature-child", "-tier", string(c.Tier), "-seed", fmt.Sprint(c.Seed),
+	args := []string{"-worker", "-prop", "C16", "-part", part, "-tier", string(c.Tier), "-seed", fmt.Sprint(c.Seed),
 		"-from", fmt.Sprint(c.Index), "-to", fmt.Sprint(c.Index + 1), "-out", journal}
 	if c.Race {
 		args = append(args, "-race")
@@ -1454,60 +2178,80 @@ func c16NoFeature(c *rig.Ctx) {
 	done := make(chan error, 1)
 	if err := cmd.Start(); err != nil {
 		c.Inconclusive("cannot start the child process: %v", err)
-		return
+		return out, false
 	}
 	go func() { done <- cmd.Wait() }()
-	var werr error
 	select {
-	case werr = <-done:
+	case out.err = <-done:
 	case <-time.After(90 * time.Second):
 		_ = cmd.Process.Kill()
 		<-done
-		c.Inconclusive("child process for history %v did not finish within 90s", hist)
-		return
+		c.Inconclusive("child process for %s did not finish within 90s", what)
+		return out, false
 	}
-	c.Events(1)
-	c.Shape(strings.Join(hist, ","))
-	c.Seen("nofeature_histories", strings.Join(hist, ","))
-	text := stderr.String()
-	if werr == nil {
-		// survived: take over what the child judged
-		if f, err := os.Open(journal); err == nil {
-			defer f.Close()
-			sc := bufio.NewScanner(f)
-			sc.Buffer(make([]byte, 1<<20), 16<<20)
-			for sc.Scan() {
-				if line := sc.Text(); strings.HasPrefix(line, "R ") {
-					var r rig.CaseResult
-					if json.Unmarshal([]byte(line[2:]), &r) == nil {
-						for _, v := range r.Viol {
-							c.Violate(v.Sig, "%s", v.Detail)
-						}
-						for _, s := range r.Inconcl {
-							c.Inconclusive("%s", s)
-						}
-						c.Sample(map[string]any{"history": hist, "child": r.Sample, "outcome": "survived"})
-					}
+	out.stderr = stderr.String()
+	if f, err := os.Open(journal); err == nil {
+		defer f.Close()
+		sc := bufio.NewScanner(f)
+		sc.Buffer(make([]byte, 1<<20), 16<<20)
+		for sc.Scan() {
+			if line := sc.Text(); strings.HasPrefix(line, "R ") {
+				var r rig.CaseResult
+				if json.Unmarshal([]byte(line[2:]), &r) == nil {
+					out.results = append(out.results, r)
 				}
 			}
 		}
-		c.Count("nofeature_survived", 1)
-		c.NonTrivial(true)
-		return
 	}
+	return out, true
+}
+
+// c16DeathOf returns the panic / fatal error text of a child that died and the innermost spine-go frame of it.
+func c16DeathOf(text string) (tail, frame string, found bool) {
 	idx := strings.Index(text, "panic: ")
 	if idx < 0 {
 		idx = strings.Index(text, "fatal error: ")
 	}
 	if idx < 0 {
-		c.Inconclusive("child process for history %v ended with %v without a panic message", hist, werr)
-		return
+		return "", "", false
 	}
-	tail := text[idx:]
+	tail = text[idx:]
+	frame = rig.InnermostSpineFrame(tail)
 	if len(tail) > 1500 {
 		tail = tail[:1500]
 	}
-	frame := rig.InnermostSpineFrame(text[idx:])
+	return tail, frame, true
+}
+
+func c16NoFeature(c *rig.Ctx) {
+	hist := c16NoFeatureHistories[c.Index%len(c16NoFeatureHistories)]
+	out, ok := c16RunChild(c, "nofeature-child", fmt.Sprintf("history %v", hist))
+	if !ok {
+		return
+	}
+	c.Events(1)
+	c.Shape(strings.Join(hist, ","))
+	c.Seen("nofeature_histories", strings.Join(hist, ","))
+	if out.err == nil {
+		// survived: take over what the child judged
+		for _, r := range out.results {
+			for _, v := range r.Viol {
+				c.Violate(v.Sig, "%s", v.Detail)
+			}
+			for _, s := range r.Inconcl {
+				c.Inconclusive("%s", s)
+			}
+			c.Sample(map[string]any{"history": hist, "child": r.Sample, "outcome": "survived"})
+		}
+		c.Count("nofeature_survived", 1)
+		c.NonTrivial(true)
+		return
+	}
+	tail, frame, found := c16DeathOf(out.stderr)
+	if !found {
+		c.Inconclusive("child process for history %v ended with %v without a panic message", hist, out.err)
+		return
+	}
 	c.NonTrivial(true)
 	c.Count("nofeature_process_died", 1)
 	c.Sample(map[string]any{"history": hist, "outcome": "process died", "frame": frame})
@@ -1516,5 +2260,152 @@ func c16NoFeature(c *rig.Ctx) {
 	} else {
 		c.Violate("nofeature/crash@"+frame, "history %v: the process died:\n%s", hist, tail)
 	}
+	c.Witness(map[string]any{"history": hist, "stderr": tail})
+}
+
+// ---------------------------------------------------------------------------
+// entity0: the DeviceInformation entity [0] of the device (and an entity the application creates with address [0]).
+// The quantifier covers every history of AddFunctionType(heartbeat) / StartHeartbeat / StopHeartbeat /
+// IsHeartbeatRunning / RemoveEntity calls, and the statement demands that they do not panic. Whether entity [0] HAS a
+// heartbeat is not decided by the statement: nothing but "no panic, the process survives" is judged here. Calls on the
+// heartbeat manager are made only if EntityLocal.HeartbeatManager() hands one out (a nil manager cannot be called).
+
+var c16Entity0Histories = [][]string{
+	{"add"},
+	{"add-unreadable"},
+	{"hm", "add", "hm", "remove", "hm"},
+	{"fresh", "add", "hm", "add-entity", "hm", "remove", "hm"},
+	{"remove", "hm", "add"},
+	// controls (no heartbeat function on a server feature involved): prove that the mechanism itself survives
+	{"client-add", "state-add", "hm", "remove"},
+}
+
+func c16Entity0Child(c *rig.Ctx) {
+	hist := c16Entity0Histories[c.Index%len(c16Entity0Histories)]
+	w := rig.NewWorld(c.Tag())
+	defer w.Close()
+	var ent api.EntityLocalInterface = w.Local.Entity(spine.DeviceInformationAddressEntity)
+	if rig.IsNil(ent) {
+		c.Inconclusive("the local device has no entity [0]")
+		return
+	}
+	var log []string
+	// guarded executes one call; a panic in the calling goroutine is the verdict (a panic on a goroutine of the stack
+	// kills this process and is attributed by the parent)
+	guarded := func(op, sig string, f func()) {
+		p := eGuard(c, "entity0 "+op, f)
+		c.Events(1)
+		if p == "" {
+			log = append(log, op)
+			return
+		}
+		log = append(log, op+"=PANIC")
+		c.Violate(sig, "history %v on entity [0]: %s panicked: %s\n calls so far: %v", hist, op, p, log)
+	}
+	hmCalls := func() {
+		hm := ent.HeartbeatManager()
+		if rig.IsNil(hm) {
+			c.Count("entity0_hands_out_no_heartbeat_manager", 1)
+			log = append(log, "HeartbeatManager()=nil")
+			return
+		}
+		c.Count("entity0_hands_out_a_heartbeat_manager", 1)
+		guarded("IsHeartbeatRunning", "entity0/call-panics/isrunning", func() { _ = hm.IsHeartbeatRunning() })
+		guarded("StartHeartbeat", "entity0/call-panics/start", func() { _ = hm.StartHeartbeat() })
+		guarded("IsHeartbeatRunning", "entity0/call-panics/isrunning", func() { _ = hm.IsHeartbeatRunning() })
+		guarded("StopHeartbeat", "entity0/call-panics/stop", func() { hm.StopHeartbeat() })
+		guarded("StopHeartbeat", "entity0/call-panics/stop", func() { hm.StopHeartbeat() })
+		guarded("StartHeartbeat", "entity0/call-panics/start", func() { _ = hm.StartHeartbeat() })
+	}
+	dd := func() api.FeatureLocalInterface {
+		return ent.GetOrAddFeature(model.FeatureTypeTypeDeviceDiagnosis, model.RoleTypeServer)
+	}
+	for _, op := range hist {
+		switch op {
+		case "fresh":
+			// an entity [0] the application creates itself, with a heartbeat timeout
+			ent = spine.NewEntityLocal(w.Local, model.EntityTypeTypeDeviceInformation, spine.NewAddressEntityType([]uint{0}), 100*time.Millisecond)
+			log = append(log, "NewEntityLocal([0])")
+		case "add-entity":
+			guarded("AddEntity", "entity0/call-panics/add-entity", func() { w.Local.AddEntity(ent) })
+		case "add":
+			guarded("AddFunctionType(heartbeat,read)", "entity0/add-heartbeat-function-panics", func() {
+				dd().AddFunctionType(model.FunctionTypeDeviceDiagnosisHeartbeatData, true, false)
+			})
+		case "add-unreadable":
+			guarded("AddFunctionType(heartbeat,no read)", "entity0/add-heartbeat-function-panics", func() {
+				dd().AddFunctionType(model.FunctionTypeDeviceDiagnosisHeartbeatData, false, false)
+			})
+		case "client-add":
+			guarded("AddFunctionType(heartbeat) on the client feature", "entity0/call-panics/client-add", func() {
+				ent.GetOrAddFeature(model.FeatureTypeTypeDeviceDiagnosis, model.RoleTypeClient).AddFunctionType(model.FunctionTypeDeviceDiagnosisHeartbeatData, true, false)
+			})
+		case "state-add":
+			guarded("AddFunctionType(state) on the server feature", "entity0/call-panics/state-add", func() {
+				dd().AddFunctionType(model.FunctionTypeDeviceDiagnosisStateData, true, false)
+			})
+		case "hm":
+			hmCalls()
+		case "remove":
+			guarded("RemoveEntity", "entity0/call-panics/remove", func() { w.Local.RemoveEntity(ent) })
+		}
+		if c.Failed() {
+			break
+		}
+	}
+	// if a heartbeat was started, let its stream tick a few times (a panic there ends this process), then stop it
+	if hm := ent.HeartbeatManager(); !rig.IsNil(hm) {
+		time.Sleep(500 * time.Millisecond)
+		guarded("StopHeartbeat", "entity0/call-panics/stop", func() { hm.StopHeartbeat() })
+	}
+	c.NonTrivial(true)
+	c.Shape(strings.Join(hist, ","))
+	c.Sample(map[string]any{"history": hist, "calls": log})
+	if c.Failed() {
+		c.Witness(map[string]any{"history": hist, "calls": log})
+	}
+}
+
+func c16Entity0(c *rig.Ctx) {
+	hist := c16Entity0Histories[c.Index%len(c16Entity0Histories)]
+	out, ok := c16RunChild(c, "entity0-child", fmt.Sprintf("entity [0] history %v", hist))
+	if !ok {
+		return
+	}
+	c.Events(1)
+	c.Shape("entity0 " + strings.Join(hist, ","))
+	c.Seen("entity0_histories", strings.Join(hist, ","))
+	if out.err == nil {
+		for _, r := range out.results {
+			for _, v := range r.Viol {
+				c.Violate(v.Sig, "%s", v.Detail)
+			}
+			for _, s := range r.Inconcl {
+				c.Inconclusive("%s", s)
+			}
+			for k, n := range r.Counts {
+				if strings.HasPrefix(k, "entity0_") {
+					c.Count(k, n)
+				}
+			}
+			c.Events(r.Events)
+			c.Sample(map[string]any{"history": hist, "child": r.Sample, "outcome": "survived"})
+			if len(r.Viol) > 0 {
+				c.Witness(r.Witness)
+			}
+		}
+		c.Count("entity0_survived", 1)
+		c.NonTrivial(len(out.results) > 0)
+		return
+	}
+	tail, frame, found := c16DeathOf(out.stderr)
+	if !found {
+		c.Inconclusive("child process for entity [0] history %v ended with %v without a panic message", hist, out.err)
+		return
+	}
+	c.NonTrivial(true)
+	c.Count("entity0_process_died", 1)
+	c.Sample(map[string]any{"history": hist, "outcome": "process died", "frame": frame})
+	c.Violate("entity0/crash@"+frame, "history %v on entity [0]: the process died:\n%s", hist, tail)
 	c.Witness(map[string]any{"history": hist, "stderr": tail})
 }
